@@ -188,6 +188,26 @@ func genSetNum(rng *rand.Rand, n int, uids []uint32, uid bool) setNum {
 		return bigNum(k.Add(k, big.NewInt(int64(rng.Intn(n+2)))).String())
 	case 8:
 		return bigNum("1000000000000000000000000000000")
+	case 10:
+		// target + k*2^w: what a w-bit accumulator that wraps k times would turn into a number of the view
+		w := []uint{31, 32, 63, 64}[rng.Intn(4)]
+		k := new(big.Int).Lsh(big.NewInt(int64(1+rng.Intn(12))), w)
+		t, _ := new(big.Int).SetString(inRange(), 10)
+		if rng.Intn(4) == 0 {
+			t = big.NewInt(int64(rng.Intn(n + 2)))
+		}
+
+		return bigNum(k.Add(k, t).String())
+	case 11:
+		// the decimal text of a boundary with its last digit varied and up to two more digits behind it:
+		// the shapes an overflow guard of the form "acc > (MAX-digit)/10" has to get right
+		b := []string{"2147483647", "4294967295", "9223372036854775807", "18446744073709551615"}[rng.Intn(4)]
+		b = b[:len(b)-1] + fmt.Sprint(rng.Intn(10))
+		for i := rng.Intn(3); i > 0; i-- {
+			b += fmt.Sprint(rng.Intn(10))
+		}
+
+		return bigNum(b)
 	case 9:
 		return bigNum("1")
 	default:
